@@ -315,6 +315,20 @@ impl Driver for C13 {
                 let k = rng.gen_range(0..spec.rows.len());
                 spec.rows[k].b = -[1e-6, 1e-9, 3e-6][rng.gen_range(0..3)];
             }
+            if rng.gen_range(0..10) == 0 {
+                // bounds of a few millionths are bounds: each needs its row like any other
+                for (_, t) in spec.vars.iter_mut() {
+                    if rng.gen_bool(0.5) {
+                        let tiny = [5e-6, 2e-6, 8e-7][rng.gen_range(0..3)];
+                        match t {
+                            VSpec::NonNeg(lo, _) if *lo == 0.0 => *lo = tiny,
+                            VSpec::Real(Some(lo), _) if *lo == 0.0 => *lo = -tiny,
+                            VSpec::Real(_, Some(hi)) if *hi == 0.0 => *hi = tiny,
+                            _ => {}
+                        }
+                    }
+                }
+            }
             let mut prng = unit_rng(ctx, "C13p", out.unit * 100 + case);
             if only.is_some_and(|o| o != case) {
                 continue;
